@@ -83,8 +83,9 @@ async def correspond(ctx):
     await kcorr.run(ctx, SCOPES, observers=[Observer], salt="c08", exotic_share=0.3)
 
 
-PATHS = ["d/a.txt", "d/b.txt", "d", "d/sub/c.txt", "e.txt", "D/a.txt", "d0", "d.txt", "d/sub"]
-TREES = ["d", "d/sub", "D", "d/"]
+PATHS = ["d/a.txt", "d/b.txt", "d", "d/sub/c.txt", "e.txt", "D/a.txt", "d0", "d.txt", "d/sub", "a_b/f.txt", "axb/f.txt",
+         "100%/g.txt", "100-percent/g.txt"]
+TREES = ["d", "d/sub", "D", "d/", "a_b", "axb", "100%"]
 GLOBS = ["d/*.txt", "*.txt", "d/*", "d/sub/*"]
 
 
